@@ -1,7 +1,48 @@
-(** C02 — statements about the node model; see Proofs/NodeFacts.v *)
-From Wasp Require Import Model.Base Model.Node.
-From stdpp Require Import list.
+(** C02 — An acknowledged publish is never lost before reaching connected subscribers.
+    Statements about the node model; the chain is: acknowledged ==> stored at every destination
+    (C05 [ack_after_store]) ==> consumed by that node's log consumer ([nothing_skipped]) ==>
+    written to every recipient in the registry ([stored_entry_delivered]).  Log segment rolls and
+    truncation are below this model (the log is a list); they are C15's consumer model. *)
+From Wasp Require Import Model.Base Spec.MatchSpec Model.DState Model.IdPool Model.Mount Model.Node Proofs.BaseFacts Proofs.MountFacts Proofs.NodeFacts.
+From stdpp Require Import list strings.
 Open Scope Z_scope.
-Theorem C02_model_is_total : ∀ seen cl o, ∃ cl' obs, step seen cl o = (cl', obs).
-Proof. intros. destruct (step seen cl o) as [cl' obs]. by exists cl', obs. Qed.
-Print Assumptions C02_model_is_total.
+
+(** the acknowledgement is emitted only when every destination log accepted the message *)
+Theorem acked_implies_stored : ∀ cl i m retain clk ackp, ∃ cl1 o,
+  (worker cl i m retain clk ackp).2 = o ++ (if existsb bad_store o then [] else ackp) ∧
+  quiet (λ x, negb (is_store x)) o ∧
+  (existsb bad_store o = false → ∀ dst, dst ∈ dests_of cl1 i m → existsb (stored_at (Z.to_nat (dst - 1)) m) o = true) ∧
+  (∀ j, (∀ dst, dst ∈ dests_of cl1 i m → Z.to_nat (dst - 1) ≠ j) → napp j o = 0%nat).
+Proof. exact worker_spec. Qed.
+Print Assumptions acked_implies_stored.
+
+(** the log consumer hands EVERY stored entry to the writer, from the very first one (offset 0)
+    on: after draining, the consumer offset equals the length of the log and the log is intact *)
+Theorem nothing_skipped : ∀ fuel cl i, (i < length (cl_nodes cl))%nat →
+  (length (n_log (getn cl i)) - n_coff (getn cl i) ≤ fuel)%nat →
+  let n' := getn (drain_node fuel cl i).1 i in
+  n_log n' = n_log (getn cl i) ∧ (n_coff n' = Nat.max (n_coff (getn cl i)) (length (n_log (getn cl i))))%nat.
+Proof. exact drain_consumes_everything. Qed.
+Print Assumptions nothing_skipped.
+
+(** a stored entry is written, with topic (mount point trimmed) and payload intact, to every
+    recipient that is in the registry, and to nobody else (QoS 0 recipients: exact list; at
+    QoS 1/2 the same packets carry identifiers, see C03/C06) *)
+Theorem stored_entry_delivered : ∀ bad recips n m, Forall (λ rq : string * Z, rq.2 = 0) recips →
+  send bad n recips m = (n, flat_map (q0_out bad n m) recips).
+Proof. exact send_q0_exact. Qed.
+Print Assumptions stored_entry_delivered.
+Theorem delivered_only_to_recipients : ∀ bad recips n m o, o ∈ (send bad n recips m).2 →
+  ∃ r q s mid, (r, q) ∈ recips ∧ alookup r (n_reg n) = Some s ∧
+    o = Out (ss_conn s) (OPublish (trim_mp (ss_mp s) (l_topic m)) (l_payload m) q (l_retain m) (l_dup m) mid).
+Proof. exact send_only_recipients. Qed.
+Print Assumptions delivered_only_to_recipients.
+
+(** the very first message a node ever stores is delivered *)
+Example first_message_delivered :
+  let run := fold_left (λ st o, let r := step [] st.1 o in (r.1, (st.2 ++ [r.2])%list)) in
+  let ops := [EConnect 0%nat "sub" "c-sub" "" "" 60 None 10; ESubscribe "sub" 1 [("#", 0)] 20;
+              EConnect 0%nat "pub" "c-pub" "" "" 60 None 30; EPublish "pub" (Publish "a" "first" 1 false) false 5 40] in
+  nth 3%nat (run ops (cnew 1%nat, [])).2 [] =
+    [Appended 0%nat "_default/a" "first" 1 false; Out "pub" (OPubAck 5); Deadline "pub" 120000; Out "sub" (OPublish "a" "first" 0 false false 0)].
+Proof. vm_compute. done. Qed.
